@@ -696,3 +696,25 @@ VARIANTS += [
     dict(prop="C02", name="dzkp-multiply-skips-proof", expect="WHO-multiply|SecureMul<dzkp_malicious::DZKPUpgraded>",
          edits=[dict(file="ipa-core/src/protocol/basics/mul/dzkp_malicious.rs", find="        zkp_multiply(ctx, record_id, self, rhs).await", replace="        crate::protocol::basics::mul::semi_honest::sh_multiply(ctx, record_id, self, rhs).await")]),
 ]
+
+SMF = "ipa-core/src/protocol/ipa_prf/shuffle/malicious.rs"
+MTF = "ipa-core/src/seq_join/multi_thread.rs"
+SFF = "ipa-core/src/protocol/basics/shard_fin.rs"
+VARIANTS += [
+    dict(prop="C05", name="verify-shuffle-skips-empty-output", expect="PATH-verify|verify_shuffle:no-ok-without-verify",
+         edits=[dict(file=SMF, find="    // reveal keys\n    let k_ctx = ctx\n        .narrow(&VerifyShuffleStep::RevealMACKey)", replace="    if shuffled_shares.is_empty() {\n        return Ok(());\n    }\n    // reveal keys\n    let k_ctx = ctx\n        .narrow(&VerifyShuffleStep::RevealMACKey)")]),
+    dict(prop="C05", name="verify-shuffle-keys-not-opened", expect="PATH-verify|verify_shuffle:h2_verify:uses-opened-keys",
+         edits=[dict(file=SMF, find="            h2_verify::<_, S>(ctx, &keys, shuffled_shares, x2).await", replace="            h2_verify::<_, S>(ctx, &vec![Gf32Bit::ZERO; keys.len()], shuffled_shares, x2).await")]),
+    dict(prop="C05", name="verify-shuffle-match-bound-first", benign=True,
+         edits=[dict(file=SMF, find="    // verify messages and shares\n    match messages {\n        IntermediateShuffleMessages::H1 { x1 } => {\n            h1_verify::<_, S>(ctx, &keys, shuffled_shares, x1).await\n        }", replace="    // verify messages and shares\n    let keys = keys.as_slice();\n    match messages {\n        IntermediateShuffleMessages::H1 { x1 } => {\n            let verdict = h1_verify::<_, S>(ctx, keys, shuffled_shares, x1).await;\n            verdict\n        }")]),
+    dict(prop="C15", name="parallel-join-drains-before-errors", cfg="M", expect="JOIN-parallel|mt:no-drain-await",
+         edits=[dict(file=MTF, find="        let mut result = Vec::with_capacity(scope.len());\n        while let Some(item) = scope.next().await {\n            // join error is nothing we can do about\n            result.push(item.expect(\"parallel_join: received JoinError\")?);\n        }\n        Ok(result)", replace="        Spawner::collect(&mut scope)\n            .await\n            .into_iter()\n            .map(|item| item.expect(\"parallel_join: received JoinError\"))\n            .collect()")]),
+    dict(prop="C15", name="parallel-join-errors-after-loop", cfg="M", expect="JOIN-parallel|mt:error-returned-on-arrival",
+         edits=[dict(file=MTF, find="        let mut result = Vec::with_capacity(scope.len());\n        while let Some(item) = scope.next().await {\n            // join error is nothing we can do about\n            result.push(item.expect(\"parallel_join: received JoinError\")?);\n        }\n        Ok(result)", replace="        let mut result = Vec::with_capacity(scope.len());\n        while let Some(item) = scope.next().await {\n            // join error is nothing we can do about\n            result.push(item.expect(\"parallel_join: received JoinError\"));\n        }\n        result.into_iter().collect()")]),
+    dict(prop="C15", name="parallel-join-explicit-match", cfg="M", benign=True,
+         edits=[dict(file=MTF, find="            result.push(item.expect(\"parallel_join: received JoinError\")?);", replace="            match item.expect(\"parallel_join: received JoinError\") {\n                Ok(v) => result.push(v),\n                Err(e) => return Err(e),\n            }")]),
+    dict(prop="C07", name="shard-merge-wraps", expect="SAT-merge|saturating-addition",
+         edits=[dict(file=SFF, find="            self.values = integer_sat_add::<_, ThirtyTwoBitStep, B>(\n                ctx,\n                record_id,\n                &self.values,\n                &other.values,\n            )\n            .await?;", replace="            let (sum, _) = crate::protocol::ipa_prf::boolean_ops::addition_sequential::integer_add::<_, ThirtyTwoBitStep, B>(\n                ctx.narrow(&crate::protocol::ipa_prf::boolean_ops::step::SaturatedAdditionStep::Add),\n                record_id,\n                &self.values,\n                &other.values,\n            )\n            .await?;\n            self.values = sum;")]),
+    dict(prop="C01", name="shard-merge-wraps", expect="SAT-merge|saturating-addition",
+         edits=[dict(file=SFF, find="            self.values = integer_sat_add::<_, ThirtyTwoBitStep, B>(\n                ctx,\n                record_id,\n                &self.values,\n                &other.values,\n            )\n            .await?;", replace="            let (sum, _) = crate::protocol::ipa_prf::boolean_ops::addition_sequential::integer_add::<_, ThirtyTwoBitStep, B>(\n                ctx.narrow(&crate::protocol::ipa_prf::boolean_ops::step::SaturatedAdditionStep::Add),\n                record_id,\n                &self.values,\n                &other.values,\n            )\n            .await?;\n            self.values = sum;")]),
+]
